@@ -122,4 +122,14 @@ theorem insertChild_ok' {s : St} {pp : Path} {pm : MNode} (n : Name) (m : MNode)
   rw [bind_ok (getNode_ok h)]
   exact ⟨_, rfl, rfl, rfl⟩
 
+/-- the forest after `remove_child(pp, n)` -/
+def removedMem (mem : Mem) (n : Name) (pp : Path) (pm : MNode) : Mem :=
+  (removeSubtree mem (n :: pp)).set pp (some { pm with kids := pm.kids.filter (· != n) })
+
+theorem removeChild_ok' {s : St} {pp : Path} {pm : MNode} (n : Name) (h : s.mem pp = some pm) :
+    ∃ s', removeChild pp n s = .ok () s' ∧ s'.disk = s.disk ∧ s'.mem = removedMem s.mem n pp pm := by
+  unfold removeChild
+  rw [bind_ok (getNode_ok h)]
+  exact ⟨_, rfl, rfl, rfl⟩
+
 end Fbr.Ovl
